@@ -20,6 +20,8 @@ WORKLOADS = {
     "c10": _lazy("crash", "run_c10"),
     "c01": _lazy("sweep", "run_c01"),
     "c05": _lazy("harvest", "run_c05"),
+    "c15": _lazy("sampler", "run_c15"),
+    "c06": _lazy("twin", "run_c06"),
 }
 
 REAL_VS_STUB = {
@@ -37,9 +39,9 @@ REAL_VS_STUB = {
 UNDER_CONSTRUCTION = "simulation target (see DESIGN.md section 3); check not built yet in this snapshot"
 
 NOT_APPLICABLE = {
-    "C06": UNDER_CONSTRUCTION,
+    
  
-    "C15": UNDER_CONSTRUCTION,
+    
     "C16": UNDER_CONSTRUCTION,
     "C02": "pure function of (cases, combos, fn): enumeration and placeholder shape contain no schedule, "
            "clock, I/O or fault; executor reordering is C01's subject. Not a simulation target.",
@@ -230,6 +232,48 @@ PROPS = {
             "rule": "each run draws result kind, engine, extension, coordinate type and 1-8 operations with their "
                     "coordinates, version, policy and sync flag; non-trivial = at least 2 operations; distinct = "
                     "distinct (kind, engine, extension, operation sequence with arguments).",
+        },
+    },
+    "C15": {
+        "workload": "c15", "level": "exploration",
+        "quick": 3000, "thorough": 80000,
+        "technique": "deterministic simulation: seeded histories of sample_combos runs, sow_samples/grow/reap runs "
+                     "(batches grown in any order by fresh simulated processes, reaped by the session or a fresh "
+                     "process) and new sessions over one table file, against a list-of-rows model; np.random seeded "
+                     "from the tape",
+        "level_text": "Seeded exploration of histories of 1-6 runs with varying n, combos overrides, per-run and "
+                      "runner constants, resources, batch sizes, engines pickle and csv, list and generator choices, "
+                      "fresh Sampler objects between runs. After every run the table read by a fresh process has "
+                      "grown by exactly n, its earlier rows are unchanged, every new row's arguments are allowed "
+                      "and its outputs are the function's value at exactly those arguments, and it equals full_df.",
+        "level_note": "csv tables are compared to 1e-12 relative (pandas' default float parser is not round-trip "
+                      "exact). Row identity within a run is not checked (draws are random), only row correctness.",
+        "evidence": {
+            "rule": "each run draws the function kind, engine, choices (list or generator) and 1-6 operations; "
+                    "non-trivial = at least 2 rows accumulated; distinct = distinct (kind, engine, operation "
+                    "sequence with arguments).",
+        },
+    },
+    "C06": {
+        "workload": "c06", "level": "exploration",
+        "quick": 2000, "thorough": 50000,
+        "technique": "deterministic simulation: farmer-backed crops (Runner / Harvester / Sampler) sown, grown in "
+                     "tape-chosen order and grouping by fresh simulated processes that reload crop and farmer by "
+                     "name, reaped, and compared with a twin - the same farmer description called directly on twin "
+                     "storage in the same run",
+        "level_text": "Seeded exploration over runner descriptions (1-2 output variables, scalar / 1-d / 2-d internal "
+                      "dimensions via var_coords or a constant, Dataset-returning functions with var_names=None, "
+                      "constants, resources, attrs), sweeps (grids, case lists, both), batching, shuffle, overwrite "
+                      "policy, to_df, storage engine and extension, one or two crops into the same storage. The reaped "
+                      "Dataset must be identical (up to dimension order) to the direct run's, the DataFrame equal up "
+                      "to row order, farmer.last_ds/last_df must be that object, and the data files of crop side and "
+                      "twin side must be identical after every reap.",
+        "level_note": "The oracle is xyzpy's own direct path, which is what the property states (labelling itself "
+                      "is C03, not claimed). Dimension order and row order are not compared.",
+        "evidence": {
+            "rule": "each run draws the farmer kind and description, a sweep of <= 16 settings in <= 6 batches, a "
+                    "grow partition and reload pattern; non-trivial = every run; distinct = distinct (farmer, result "
+                    "kind, N, batches, api, description, rounds, to_df, overwrite).",
         },
     },
 }
